@@ -119,7 +119,7 @@ fn reset_history(rng: &mut Rng, out: &mut CaseOut) {
     let mut hist = Vec::new();
     let mut last_high: Option<bool> = None;
     let mut switches = 0;
-    for _ in 0..rng.range(2, 6) {
+    for _ in 0..rng.range(2, if crate::thorough() { 16 } else { 6 }) {
         // alternate sides of the rule on purpose
         let (k, r) = loop {
             let class = if rng.chance(2, 3) { Class::Small } else { Class::Edge };
